@@ -606,14 +606,15 @@ fn admin_mode(d: &Driver, req: &Value) -> Value {
     let csm: pgcat::pool::ClientServerMap = Arc::new(parking_lot::Mutex::new(std::collections::HashMap::new()));
     let mut held: Vec<Option<(String, String, ConnectionPool)>> = vec![None; MAXC];
     let mut started = vec![false; MAXC];
+    let mut nopool = vec![false; MAXC];
     let mut old_pools: Vec<(String, ConnectionPool)> = Vec::new();
     let mut trace = Vec::new();
-    let observe = |held: &Vec<Option<(String, String, ConnectionPool)>>, started: &Vec<bool>| -> Value {
+    let observe = |held: &Vec<Option<(String, String, ConnectionPool)>>, started: &Vec<bool>, nopool: &Vec<bool>| -> Value {
         let g = d.sh.m.lock().unwrap();
         let clients: Vec<Value> = (0..MAXC)
             .filter(|i| held[*i].is_some())
             .map(|i| {
-                let st = if !started[i] { "idle" } else { match g[i].s { S::Blocked => "blocked", S::Done => "passed", _ => "running" } };
+                let st = if nopool[i] { "nopool" } else if !started[i] { "idle" } else { match g[i].s { S::Blocked => "blocked", S::Done => "passed", _ => "running" } };
                 let (db, user, pool) = held[i].as_ref().unwrap();
                 // what Client::get_pool() would answer at the session's next `pool = self.get_pool()`
                 json!({"client": i, "status": st, "session_pool_paused": pool.paused(),
@@ -668,17 +669,31 @@ fn admin_mode(d: &Driver, req: &Value) -> Value {
                 }
             }
             "query" => {
+                // Client::handle before every checkout: `pool = self.get_pool().await?;` (the session ends with
+                // "No pool configured" if the lookup fails), `pool.wait_paused().await;`, then the pool is
+                // looked up again.  "stale": true replays the call site as it was before that lookup was added.
                 let i = op["client"].as_u64().unwrap_or(0) as usize;
-                match &held[i] {
-                    Some((_, _, p)) => {
-                        {
-                            let mut g = d.sh.m.lock().unwrap();
-                            g[i] = Slot { s: S::Running, wake_pending: false, ret: None, wakes: 0, polls: 0 };
+                let stale = op["stale"].as_bool().unwrap_or(false);
+                match held[i].clone() {
+                    Some((db, user, old)) => {
+                        let looked_up = if stale { Some(old) } else { pgcat::pool::get_pool(&db, &user) };
+                        match looked_up {
+                            None => {
+                                nopool[i] = true;
+                                json!({"ok": true, "lookup": "No pool configured"})
+                            }
+                            Some(p) => {
+                                held[i] = Some((db, user, p.clone()));
+                                {
+                                    let mut g = d.sh.m.lock().unwrap();
+                                    g[i] = Slot { s: S::Running, wake_pending: false, ret: None, wakes: 0, polls: 0 };
+                                }
+                                started[i] = true;
+                                d.ctx[i].send(Gate::Real(p)).unwrap();
+                                let settled = d.sh.wait_until(i, |s| s.s == S::Blocked || s.s == S::Done, STEP_TIMEOUT_MS);
+                                json!({"ok": settled})
+                            }
                         }
-                        started[i] = true;
-                        d.ctx[i].send(Gate::Real(p.clone())).unwrap();
-                        let settled = d.sh.wait_until(i, |s| s.s == S::Blocked || s.s == S::Done, STEP_TIMEOUT_MS);
-                        json!({"ok": settled})
                     }
                     None => json!({"ok": false, "err": "client not connected"}),
                 }
@@ -703,10 +718,10 @@ fn admin_mode(d: &Driver, req: &Value) -> Value {
                 }
             }
         }
-        trace.push(json!({"op": op, "res": res, "obs": observe(&held, &started)}));
+        trace.push(json!({"op": op, "res": res, "obs": observe(&held, &started, &nopool)}));
     }
     std::thread::sleep(Duration::from_millis(grace));
-    let fin = observe(&held, &started);
+    let fin = observe(&held, &started, &nopool);
     // clean-up: release whoever is still blocked, directly on the pool object its session holds
     for i in 0..MAXC {
         if let Some((_, _, p)) = &held[i] {
